@@ -443,3 +443,29 @@ pub fn c01_families(tier: Tier) -> Vec<Family> {
     }
     fams
 }
+
+/// C05, concurrent part: an expired (uncollected) item is absent for every presence-dependent
+/// command also while another client is collecting it; it never becomes visible again.
+pub fn c05_families(tier: Tier) -> Vec<Family> {
+    let keys = vec![K.to_vec()];
+    let o = opts(if tier == Tier::Quick { 3 } else { 64 }, tier);
+    let cmds = [T::Get, T::Add, T::Replace, T::Append, T::Prepend, T::Incr, T::Decr, T::Del];
+    let mut p2 = vec![];
+    let mut p3 = vec![];
+    for c in cmds {
+        p2.push(mk(Init::Expired, vec![vec![c], vec![T::Get]], K, K, keys.clone(), Policy::None));
+        p2.push(mk(Init::Expired, vec![vec![c, T::Get], vec![T::Get]], K, K, keys.clone(), Policy::None));
+        p2.push(mk(Init::Expired, vec![vec![c], vec![T::Get, T::Get]], K, K, keys.clone(), Policy::None));
+        if !matches!(c, T::Add | T::Incr | T::Decr) {
+            // two non-creating commands (creators racing each other are the known C04 findings)
+            for d in [T::Replace, T::Append, T::Prepend, T::Del] {
+                p2.push(mk(Init::Expired, vec![vec![c], vec![d]], K, K, keys.clone(), Policy::None));
+            }
+        }
+        p3.push(mk(Init::Expired, vec![vec![c], vec![T::Get], vec![T::Get]], K, K, keys.clone(), Policy::None));
+    }
+    vec![
+        Family { name: "expired/cmd-vs-get".into(), programs: p2, opts: o },
+        Family { name: "expired/cmd-vs-get-vs-get".into(), programs: p3, opts: SchedOpts { max_bound: if tier == Tier::Quick { 2 } else { 64 }, ..o } },
+    ]
+}
